@@ -21,7 +21,8 @@ LEVEL = 'exploration'
 RULE = ("doctests produced by the C01 program generator (all statement kinds and layouts, exact wants, prose and blank "
         "lines, google or freeform) and extended by value-returning expressions with repr wants, each given at a random "
         "file line L in 1..2000; each is formatted with {prompts on/off} x {wants on/off} x {line numbers off, "
-        "doctest-relative, file-relative}.  Non-trivial = at least two parts and one want; distinct by docstring hash.  "
+        "doctest-relative, file-relative; the latter two chosen by the call's argument or left to the session's --offset "
+        "setting in the doctest's config, all six combinations}.  Non-trivial = at least two parts and one want; distinct by docstring hash.  "
         "Plus the real docstrings of the repository (quick) and of the installed standard library and site-packages "
         "(thorough, ~1.4 k): lines once and in order, and the rendered text parses to the same doctest")
 ASSUMPTIONS = [
@@ -37,7 +38,8 @@ NUM_RE = re.compile(r'^\s*(\d+) (.*)$')
 def required_cells(tier):
     return ['reparse', 'lines-once-in-order', 'prefix:off', 'want:off', 'linenos:doctest-relative',
             'linenos:file-relative', 'wrapper:google', 'wrapper:freeform', 'multi-line-want', 'eval-mode', 'single-mode',
-            'digits:1', 'digits:2', 'digits:3', 'digits:4', 'display-leaves-doctest-unchanged', 'corpus:repo', 'want-with-trailing-blanks'] + (
+            'digits:1', 'digits:2', 'digits:3', 'digits:4', 'display-leaves-doctest-unchanged', 'corpus:repo', 'want-with-trailing-blanks',
+            'linenos:session=True,call=False', 'linenos:session=True,call=None', 'linenos:session=False,call=None'] + (
                 ['corpus:stdlib'] if tier == 'thorough' else [])
 
 
@@ -191,8 +193,12 @@ def check_case(ctx, index, case_seed):
             return True
         return False
 
-    for off in (False, True):
-        t = dt.format_src(linenos=True, colored=False, want=True, prefix=True, offset_linenos=off)
+    # the session's --offset setting lives in the doctest's config; an explicit argument of the call wins over it,
+    # no argument means the session's setting
+    for session_offset, given in ((False, False), (False, True), (False, None), (True, False), (True, True), (True, None)):
+        dt.config['offset_linenos'] = session_offset
+        off = session_offset if given is None else given
+        t = dt.format_src(linenos=True, colored=False, want=True, prefix=True, offset_linenos=given)
         ctx.event('format_src_calls')
         tl = t.split('\n')
         q = 0
@@ -201,15 +207,15 @@ def check_case(ctx, index, case_seed):
             for j in range(len(p.orig_lines)):
                 m = NUM_RE.match(tl[q]) if q < len(tl) else None
                 if not m:
-                    bad('line-numbers', 'displayed source line %r carries no number (offset_linenos=%s)\n%s' % (
-                        tl[q] if q < len(tl) else None, off, t))
+                    bad('line-numbers', 'displayed source line %r carries no number (session offset=%s, offset_linenos=%s)\n%s' % (
+                        tl[q] if q < len(tl) else None, session_offset, given, t))
                     ok = False
                     break
                 n = int(m.group(1))
                 k = (n - L) if off else (first + n - 1)
                 if not (0 <= k < len(dlines)) or not matches(m.group(2), dlines[k]):
-                    bad('line-numbers', 'with %s numbering the line %r is displayed as number %d, but that is %s line %r' % (
-                        'file-relative' if off else 'doctest-relative', m.group(2), n,
+                    bad('line-numbers', '(session --offset=%s, call offset_linenos=%s) with %s numbering the line %r is displayed as number %d, but that is %s line %r' % (
+                        session_offset, given, 'file-relative' if off else 'doctest-relative', m.group(2), n,
                         'file' if off else 'doctest', dlines[k] if 0 <= k < len(dlines) else None), relative=not off)
                     ok = False
                     break
@@ -227,8 +233,10 @@ def check_case(ctx, index, case_seed):
         if not ok:
             return
         ctx.cell('linenos:' + ('file-relative' if off else 'doctest-relative'))
+        ctx.cell('linenos:session=%s,call=%s' % (session_offset, given))
         if off:
             ctx.cell('digits:%d' % len(str(L)))
+    dt.config['offset_linenos'] = False
     # ------------------------------------------------ 4. displaying a doctest does not change it
     if signature(dt) != s1 or dt.format_src(linenos=False, colored=False, want=True, prefix=True) != text:
         bad('format-mutates', 'after being displayed under the other option sets the same DocTest object formats / parses '
